@@ -234,6 +234,8 @@ def _normal_form(world: World, host: AppHost, ctx: Dict[str, Any]) -> Dict[str, 
 def _closed(conn: Any) -> Optional[float]:
     if conn is None:
         return None
+    if conn.client.closed:
+        return "client-closed-first"  # nobody is left to observe when the server lets go of the socket
     t = conn.client.server_closed_at
     return None if t is None else round(t, 6)
 
@@ -321,7 +323,10 @@ def _compare(a: Dict[str, Any], b: Dict[str, Any], kind: str, ctx: Dict[str, Any
         for field in sorted(set(ca) | set(cb)):
             va, vb = ca.get(field), cb.get(field)
             if field == "closed_at":
-                if (va is None) != (vb is None) or (va is not None and abs(va - vb) > EPS):
+                if isinstance(va, str) or isinstance(vb, str):
+                    if va != vb:
+                        bad("close-time", f"connection {i}: closing order differs: {va} (asyncio) / {vb} (trio)")
+                elif (va is None) != (vb is None) or (va is not None and abs(va - vb) > EPS):
                     bad("close-time", f"connection {i}: the server closed at {va} (asyncio) / {vb} (trio)")
                 continue
             if va != vb:
